@@ -291,6 +291,86 @@ func runC13Client(c *ev.Case, ctx *lib.Ctx, sc c13Script) {
 	}
 }
 
+// runC13WriteFaults: the peer answers every DWR it receives; the transport refuses
+// `errs` consecutive DWR writes (nothing accepted, temporary error) starting with
+// the k-th. A responsive peer must not be closed, and the watchdog must go on.
+func runC13WriteFaults(c *ev.Case, ctx *lib.Ctx, N, k, errs int) {
+	sig := func(op string) ev.Sig { return ev.Sig{"op": op, "pattern": "answer-all", "schedule": "temporary-write-errors"} }
+	W, R := 5*time.Second, time.Second
+	settings := &sm.Settings{OriginHost: "cli.local", OriginRealm: "realm.local", VendorID: 13, ProductName: "verif",
+		HostIPAddresses: []datatype.Address{datatype.Address([]byte{192, 0, 2, 9})}}
+	machine := sm.New(settings)
+	cli := &sm.Client{Dict: ctx.Parser, Handler: machine, MaxRetransmits: uint(N), RetransmitInterval: R,
+		EnableWatchdog: true, WatchdogInterval: W,
+		AuthApplicationID: []*diam.AVP{diam.NewAVP(258, 0x40, 0, datatype.Unsigned32(4))}}
+	mc := memnet.NewConn()
+	var smu sync.Mutex
+	attempts, refused, received := 0, 0, 0
+	mc.Script = func(seq int, b []byte) memnet.Outcome {
+		if len(b) >= 20 && peer.Header(b).Code == 280 {
+			smu.Lock()
+			defer smu.Unlock()
+			attempts++
+			if attempts >= k && refused < errs {
+				refused++
+				return memnet.Outcome{Accept: 0, Err: &memnet.TempError{Msg: "EAGAIN"}, StallAt: -1}
+			}
+		}
+		return memnet.Outcome{Accept: -1, StallAt: -1}
+	}
+	mc.OnWrite = func(w memnet.WriteRec) {
+		msgs, _ := peer.SplitMessages(w.Data)
+		if len(msgs) != 1 {
+			return
+		}
+		h := peer.Header(msgs[0])
+		switch {
+		case h.Code == 257 && h.Flags&0x80 != 0:
+			mc.Feed(peer.StdCEA(h.HopByHop, h.EndToEnd, 2001, 4))
+		case h.Code == 280 && h.Flags&0x80 != 0:
+			smu.Lock()
+			received++
+			smu.Unlock()
+			mc.Feed(peer.DWA(h.HopByHop, h.EndToEnd, 2001))
+		}
+	}
+	conn, err := cli.NewConn(mc, "peer:3868")
+	if err != nil {
+		c.Fail(sig("setup"), nil, nil, "handshake failed: %v", err)
+		return
+	}
+	defer func() {
+		mc.FeedEOF()
+		conn.Close()
+		time.Sleep(W + time.Duration(N+2)*R)
+		synctest.Wait()
+	}()
+	rounds := k + errs + 4
+	H := time.Duration(rounds) * (W + time.Duration(N+1)*R)
+	select {
+	case <-mc.Closed():
+		smu.Lock()
+		defer smu.Unlock()
+		c.Fail(sig("closed-responsive-peer"), nil, nil, "MaxRetransmits=%d: the transport refused %d DWR write(s) with a temporary error (from write attempt %d on); the peer answered all %d DWRs it received, yet the client closed the connection", N, refused, k, received)
+		return
+	case <-time.After(H):
+	}
+	synctest.Wait()
+	smu.Lock()
+	defer smu.Unlock()
+	if refused != errs {
+		c.Fail(sig("watchdog-too-slow"), nil, nil, "only %d DWR writes were attempted within %v (%d refused, %d planned)", attempts, H, refused, errs)
+		return
+	}
+	if received < k-1+2 {
+		c.Fail(sig("watchdog-too-slow"), nil, nil, "after %d refused DWR writes the watchdog sent only %d DWRs in %v (attempts %d)", refused, received, H, attempts)
+		return
+	}
+	c.Event("responsive_peer_spared", 1)
+	c.Event("write_fault_scripts", 1)
+	c.Event("dwr_rounds", received)
+}
+
 // server role: DWRs to a handshaken state machine
 func runC13Server(c *ev.Case, ctx *lib.Ctx, variant int) {
 	settings := &sm.Settings{OriginHost: "srv.local", OriginRealm: "realm.local", VendorID: 13, ProductName: "verif",
@@ -455,6 +535,15 @@ func TestC13(t *testing.T) {
 			c.Fail(ev.Sig{"op": "bubble-leak", "pattern": aNames[sc.pattern], "schedule": sNames[sc.schedule]}, nil, nil, "goroutines left blocked after the scenario: %s; %s", leak, sc.String())
 		}
 	})
+	rec.Suite("client-write-faults", 4*3*4, func(c *ev.Case) {
+		N, k, errs := c.I%4, 1+(c.I/4)%3, 1+(c.I/12)%4
+		c.Class("write-faults/N=%d/first=%d/errors=%d", N, k, errs)
+		leak := runBubbleWD(t, rec, c, 60*time.Second, func() { runC13WriteFaults(c, ctx, N, k, errs) })
+		if leak != "" && !c.Failed() {
+			c.Fail(ev.Sig{"op": "bubble-leak", "pattern": "answer-all", "schedule": "temporary-write-errors"}, nil, nil, "goroutines left blocked after the scenario: %s", leak)
+		}
+	})
+	rec.Exhaustive("client-write-faults")
 	rec.Suite("server-dwr-concurrent", rec.N(40, 20000), func(c *ev.Case) {
 		K := 2 + c.I%5
 		c.Class("server-dwr-concurrent/K=%d", K)
